@@ -1,5 +1,6 @@
 import MitumModel.Model.Reopen
 import MitumModel.Model.ReopenTemps
+import MitumModel.Model.WriterStates
 import MitumModel.Gen.C20
 import MitumModel.Pins
 /-!
@@ -326,9 +327,57 @@ def current : Code := { scansAll := Gen.C20.loadTempScansAll, removesOnDisk := G
 
 end temps
 
+/-! ### the state a block writer remembers and the state it wrote -/
+section writer
+open Mitum.WriterStates
+
+
+theorem step_agree (c : Code) (h : c.diskKeepsFirst = c.memKeepsFirst) (w : W) (hw : w.mem = w.disk) (s : St) :
+    (setState c w s).mem = (setState c w s).disk := by
+  unfold setState
+  cases hd : w.disk with
+  | none => simp
+  | some d =>
+    simp only
+    by_cases hr : refuses c.diskKeepsFirst d s = true
+    · simp [hr, hw, hd]
+    · simp only [hr, Bool.false_eq_true, if_false]
+      rw [hw, hd]
+      simp only
+      rw [← h]
+      simp [hr]
+
+/-- **writer_memory_is_what_it_wrote.**  When the two comparisons are the same, whatever states the writer is given
+for a key, in whatever order and however often, the state it answers reads with is the state a database opened anew on
+its storage finds. -/
+theorem writer_memory_is_what_it_wrote (c : Code) (h : c.diskKeepsFirst = c.memKeepsFirst) (ss : List St) :
+    (run c ss).mem = (run c ss).disk := by
+  unfold run
+  have : ∀ (w : W), w.mem = w.disk → (ss.foldl (setState c) w).mem = (ss.foldl (setState c) w).disk := by
+    induction ss with
+    | nil => intro w hw; exact hw
+    | cons s rest ih => intro w hw; exact ih _ (step_agree c h w hw s)
+  exact this _ rfl
+
+/-- with different comparisons a second state of the same height is written and not remembered -/
+theorem second_state_witness :
+    let c : Code := { diskKeepsFirst := false, memKeepsFirst := true }
+    (run c [⟨33, 1⟩, ⟨33, 2⟩]).disk = some ⟨33, 2⟩ ∧ (run c [⟨33, 1⟩, ⟨33, 2⟩]).mem = some ⟨33, 1⟩ := by decide
+
+example : (run { diskKeepsFirst := true, memKeepsFirst := true } [⟨33, 1⟩, ⟨33, 2⟩, ⟨34, 3⟩, ⟨33, 4⟩]).mem = some ⟨34, 3⟩ := by decide
+
+/-- the comparisons as extracted from the source on this run -/
+def currentWriter : WriterStates.Code :=
+  { diskKeepsFirst := Gen.C20.writerDiskKeepsFirst, memKeepsFirst := Gen.C20.writerMemKeepsFirst }
+
+theorem writer_current (ss : List WriterStates.St) : (WriterStates.run currentWriter ss).mem = (WriterStates.run currentWriter ss).disk :=
+  writer_memory_is_what_it_wrote currentWriter (by decide) ss
+end writer
+
 theorem facts_ok :
     Gen.C20.blockMapLoaderKeepsBody = true ∧ Gen.C20.proofLoaderKeepsBody = true ∧
-    Gen.C20.loadTempScansAll = true ∧ Gen.C20.removeBlocksRemovesOnDisk = true ∧ Gen.C20.extractErrors = [] := by decide
+    Gen.C20.loadTempScansAll = true ∧ Gen.C20.removeBlocksRemovesOnDisk = true ∧
+    Gen.C20.writerDiskKeepsFirst = Gen.C20.writerMemKeepsFirst ∧ Gen.C20.writerMemoryFollowsDisk = true ∧ Gen.C20.extractErrors = [] := by decide
 
 theorem source_pinned : Gen.C20.pins = Pins.C20 := by decide
 
